@@ -428,13 +428,21 @@ HASH_OPS = ("g1affine_from_hash", "g2affine_from_hash", "lqibe_compute_id_from_h
 # get_point_from_x takes a field element by const reference without __restrict; Encoding::decode passes the result's own x member.
 # Patterns: the argument is the x member / the y member of the object that receives the point.
 MEMBER_OPS = ("g1_point_from_x|x=out.x", "g1_point_from_x|x=out.y", "g2_point_from_x|x=out.x", "g2_point_from_x|x=out.y")
+# multiply_doubleadd copies its base before the first write "where the algorithm needs the old value" (the property's third
+# mechanism), for affine bases too: an affine base kept in the storage that receives the projective result (a caller's union).
+OVERLAY_OPS = ("g1_doubleadd|base=out", "g2_doubleadd|base=out")
 
 
 @st.composite
 def hash_alias_cases(draw):
-    op = draw(st.sampled_from(HASH_OPS + MEMBER_OPS))
+    op = draw(st.sampled_from(HASH_OPS + MEMBER_OPS + OVERLAY_OPS))
     n = 96 if op.startswith("g2") else 48
     from . import c05, c10
+    if op in OVERLAY_OPS:
+        g = int(op[1])
+        kp, P = draw(c05.point(g))
+        bits = draw(st.sampled_from((64, 128, 256, 512)))
+        return {"op": op, "P": P, "bits": bits, "k": draw(gens.ints(bits))[1]}
     if op in MEMBER_OPS:
         g = int(op[1])
         if draw(st.booleans()):
@@ -449,6 +457,31 @@ def hash_alias_cases(draw):
 def check_hash_alias(ctx, lib, c):
     import ctypes
     op = c["op"]
+    if op in OVERLAY_OPS:
+        g = int(op[1])
+        P = c["P"]
+        if P is not None:
+            P = tuple(P) if g == 1 else tuple(tuple(x) for x in P)
+        junk = (1, 2) if g == 1 else ((1, 2), (3, 4))
+        Pa = c05.aff_b(lib, g, P, junk)
+        K = conv.bi(c["k"], c["bits"])
+        psz = lib.sizeof("G%d" % g)
+        f = lib.fn("vf_doubleadd")
+        lib.A.write_operand(Pa)
+        lib.B.write_operand(K)
+        lib.O.arm(psz)
+        f(g, c["bits"], lib.O.ptr, lib.A.ptr, 1, lib.B.ptr)
+        lib.O.check_guard(op, psz)
+        out0 = c05.b_proj(g, lib.O.read(psz))
+        lib.C.fill(0xCD, psz)
+        img = bytearray(lib.C.read(psz))
+        img[:len(Pa)] = Pa
+        lib.C.write(bytes(img))
+        f(g, c["bits"], lib.C.ptr, lib.C.ptr, 1, lib.B.ptr)
+        out1 = c05.b_proj(g, lib.C.read(psz))
+        ctx.count(c, True, "overlay:%s" % op)
+        expect(out0 == out1, "overlay/%s" % op, lambda: "P=%r k=%x (%d bits): result differs when the affine base lies in the storage that receives the result" % (P, c["k"], c["bits"]))
+        return
     if op in MEMBER_OPS:
         g = int(op[1])
         x = c["x"] if g == 1 else tuple(c["x"])
@@ -500,10 +533,10 @@ def prebuild(tier):
 
 
 def finish(evidence, agg):
-    cells = {k.replace(":found", "").replace(":none", ""): v for k, v in agg["classes"].items() if "|out=" in k or "|x=out" in k}
+    cells = {k.replace(":found", "").replace(":none", ""): v for k, v in agg["classes"].items() if "|out=" in k or "|x=out" in k or "|base=out" in k}
     evidence["coverage"]["cells"] = len(cells)
     evidence["coverage"]["min_cell_count"] = min(cells.values()) if cells else 0
-    want = len(TABLE_CELLS) + len(IRREG) + len(CAPI_CELLS) + len(HASH_OPS) + len(MEMBER_OPS)
+    want = len(TABLE_CELLS) + len(IRREG) + len(CAPI_CELLS) + len(HASH_OPS) + len(MEMBER_OPS) + len(OVERLAY_OPS)
     evidence["coverage"]["cells_expected"] = want
     evidence["coverage"]["exhaustive"] = False
 
